@@ -170,6 +170,65 @@ func c10SyncShape(fn *ast.FuncDecl, accumulate string, call string) bool {
 	return found
 }
 
+// c10WorkerPanics: inside fn every `if err := <call>; err != nil { ... }` calls
+// panicNow in its body; at least min such statements exist.
+func c10WorkerPanics(fn *ast.FuncDecl, min int) bool {
+	n, ok := 0, true
+	ast.Inspect(fn.Body, func(x ast.Node) bool {
+		is, isIf := x.(*ast.IfStmt)
+		if !isIf || is.Init == nil {
+			return true
+		}
+		as, isAs := is.Init.(*ast.AssignStmt)
+		if !isAs || len(as.Lhs) != 1 {
+			return true
+		}
+		if id, isID := as.Lhs[0].(*ast.Ident); !isID || id.Name != "err" {
+			return true
+		}
+		n++
+		found := false
+		ast.Inspect(is.Body, func(y ast.Node) bool {
+			if c, isCall := y.(*ast.CallExpr); isCall {
+				if id, isID := c.Fun.(*ast.Ident); isID && id.Name == "panicNow" {
+					found = true
+				}
+			}
+			return true
+		})
+		if !found {
+			ok = false
+		}
+		return true
+	})
+	return ok && n >= min
+}
+
+// c10ReturnsCall: fn has a return statement (or an if-err-return) that hands on the
+// result of <x>.<name>(...).
+func c10ReturnsCall(fn *ast.FuncDecl, name string) bool {
+	res := false
+	ast.Inspect(fn.Body, func(x ast.Node) bool {
+		if r, ok := x.(*ast.ReturnStmt); ok {
+			for _, e := range r.Results {
+				ast.Inspect(e, func(y ast.Node) bool {
+					if c, ok := y.(*ast.CallExpr); ok {
+						if s, ok := c.Fun.(*ast.SelectorExpr); ok && s.Sel.Name == name {
+							res = true
+						}
+					}
+					return true
+				})
+			}
+		}
+		return true
+	})
+	if !res {
+		_, res = c10IfErrReturns(fn, name)
+	}
+	return res
+}
+
 func init() {
 	ld := func() *Pkg { return loadPkg("internal/logdb") }
 	bfact := func(name string, f func() bool) Fact {
@@ -301,6 +360,27 @@ func init() {
 				panic("doWriteLocked: no `if err := d.makeRoomForWrite()`")
 			}
 			return ok
+		}),
+		// engine.go: every error a step / commit / apply / snapshot / close worker gets
+		// from its processing function ends in panicNow (the host stops), and the
+		// processing functions hand the log store's error on
+		bfact("c10_engine_workers_panic_on_error", func() bool {
+			p := loadPkg(".")
+			return c10WorkerPanics(p.Func("engine", "stepWorkerMain"), 2) &&
+				c10WorkerPanics(p.Func("engine", "commitWorkerMain"), 0) &&
+				c10WorkerPanics(p.Func("engine", "applyWorkerMain"), 2) &&
+				c10WorkerPanics(p.Func("ssWorker", "workerMain"), 1) &&
+				c10WorkerPanics(p.Func("closeWorker", "workerMain"), 1)
+		}),
+		bfact("c10_process_steps_propagates_save_error", func() bool {
+			found, ok := c10IfErrReturns(loadPkg(".").Func("engine", "processSteps"), "SaveRaftState")
+			if !found {
+				panic("processSteps: no `if err := e.logdb.SaveRaftState(...)`")
+			}
+			return ok
+		}),
+		bfact("c10_snapshotter_propagates_save_snapshots_error", func() bool {
+			return c10ReturnsCall(loadPkg(".").Func("snapshotter", "saveSnapshot"), "SaveSnapshots")
 		}),
 		// tan record format
 		NFact("c10_tan_block_size", func() *big.Int { return loadPkg("internal/tan").Const("blockSize") }),
